@@ -33,9 +33,13 @@ extern "C" {
 
 #include "eventloop.h"
 
+struct epoll_event;
+
 struct eventloop_epoll {
 	int epoll_fd;
 	struct io_event *current_ev;
+	struct epoll_event *pending_events;
+	int num_pending_events;
 	struct eventloop loop;
 };
 
